@@ -16,6 +16,7 @@ import CookModel.Lemmas.RoundtripAnalysis
 import CookModel.Lemmas.RoundtripRecipe
 import CookModel.Lemmas.RoundtripSections
 import CookModel.Lemmas.RoundtripDocRecipe
+import CookModel.Lemmas.RoundtripRefs
 import CookModel.Lemmas.ClosingStream
 import CookModel.Lemmas.CollectorRefIff
 import CookModel.Lemmas.CollectorShape
@@ -1209,5 +1210,64 @@ theorem C01_reference_target_unique {α : Type} [Arith α] (env : Env) (ings : A
   · exact absurd ⟨hd1', hd2'⟩ (h3 t' d' hlt h1' hd')
   · exact heq
   · exact absurd ⟨hd1, hd2⟩ (h3' t d hgt h1 hd)
+
+/-- **A correctly written reference is resolved and nothing is reported.**  The collector is in the default
+    modes inside a step block; the event is an ingredient `@&name…` (REF, not NEW, no intermediate data)
+    whose name — up to case folding — is that of the last earlier non-REF ingredient, at index `t`
+    (`sameNameIdx … = some t`, cf. `C06_same_name_index_is_last`), which is a definition `defn`; the
+    reference carries no modifier the definition lacks (`refConflict = 0`; HIDDEN, OPT, RECIPE are
+    inherited), no note, and its amount agrees with the definition's in being text or not
+    (`RefChecksQuiet`; ADVANCED_UNITS off, so no unit comparison).  Then the event
+    * appends to the table the ingredient `asReference (ingrOf env li) …`: name, alias, amount as written,
+      modifiers = written ∪ inherited ∪ REF, relation = reference to `t` with target kind `ingredient`;
+    * rewrites the definition at `t` to list the new index at the END of `referenced_from`
+      (`backlinked`), leaving everything else of the table untouched;
+    * appends the item `Ingredient(new index)` to the open step;
+    * and changes nothing else: in particular NO diagnostic and no panic is added (`diags`, `panic` are
+      those of `s`).
+    With `C01_references_resolved` (what any valid result looks like) this is the analysis layer of the
+    round trip for regular ingredient references.  Not covered: cookware references (same code path,
+    `cwResolve`), references under `[duplicate]: ref`, ADVANCED_UNITS unit checks. -/
+theorem C01_reference_event_partial {α : Type} [Arith α] (env : Env) (input : Str) (li : Loc (PIngredient α))
+    (s : Col α) (items : List Item) (t : Nat) (defn : Ingredient (ScalableValue α)) (defLoc : Loc (PIngredient α))
+    (rf : List Nat) (b : Bool) (tg : Option RefTarget)
+    (hd : s.defineMode = .all) (hdup : s.duplicateMode = .new) (hb : s.block = some (.step items))
+    (hinter : li.val.inter = none) (hlock : ∀ q, li.val.quantity = some q → lockOK q.val.value true)
+    (hREF : li.val.modifiers.val.contains Modifiers.REF = true)
+    (hNEW : li.val.modifiers.val.contains Modifiers.NEW = false)
+    (hfound : sameNameIdx env (s.ingredients.toList.map (fun x => (x.name, x.modifiers))) (ingrOf env li).name = some t)
+    (hdefn : s.ingredients[t]? = some defn) (hloc : s.locIngr[t]? = some defLoc)
+    (hrel : defn.relation = ⟨.definition rf b, tg⟩)
+    (hconf : refConflict li.val.modifiers.val
+      ⟨defn.modifiers.bits &&& (Modifiers.HIDDEN ||| Modifiers.OPT ||| Modifiers.RECIPE)⟩ = 0)
+    (hq : RefChecksQuiet env li (ingrOf env li).quantity defn b) :
+    (processEvent env input (.ingredient li) s).2 =
+      { s with
+        locIngr := s.locIngr.push li,
+        ingredients := (s.ingredients.setIfInBounds t (backlinked defn rf s.ingredients.size b tg)).push
+          (asReference (ingrOf env li) defn.modifiers t),
+        block := some (.step (items ++ [.ingredient s.ingredients.size])) } :=
+  rtf_proc_ingredient_ref env input li s items t defn defLoc rf b tg hd hdup hb hinter hlock hREF hNEW hfound hdefn hloc
+    hrel hconf hq
+
+/-! example: `@salt{=1%tsp}` … `@&salt` (the events of `C01_exSalt1` and a reference to it): the hypotheses
+    hold in the state after the definition, and the whole fold returns the reference with the back-link and
+    no diagnostic -/
+def C01_exSaltRef : Loc (PIngredient Rat) :=
+  ⟨⟨⟨⟨Modifiers.REF⟩, ⟨21, 22⟩⟩, none, C01_txt "salt" 22, none, none, none⟩, ⟨20, 26⟩⟩
+def C01_exAfterDef : Col Rat :=
+  { ingredients := #[ingrOf C01_toyEnv C01_exSalt1], locIngr := #[C01_exSalt1], block := some (.step [.ingredient 0]) }
+example : sameNameIdx C01_toyEnv (C01_exAfterDef.ingredients.toList.map (fun x => (x.name, x.modifiers)))
+    (ingrOf C01_toyEnv C01_exSaltRef).name = some 0 := by decide
+example : refConflict C01_exSaltRef.val.modifiers.val
+    ⟨(ingrOf C01_toyEnv C01_exSalt1).modifiers.bits &&& (Modifiers.HIDDEN ||| Modifiers.OPT ||| Modifiers.RECIPE)⟩ = 0 := by
+  decide
+example : RefChecksQuiet C01_toyEnv C01_exSaltRef (ingrOf C01_toyEnv C01_exSaltRef).quantity
+    (ingrOf C01_toyEnv C01_exSalt1) true :=
+  ⟨by decide, rfl, by decide, fun rq dq h => by cases h⟩
+example : (parseEvents C01_toyEnv [] [.start .step, .ingredient C01_exSalt1, .ingredient C01_exSaltRef, .stop .step]).output.map
+      (fun c => (c.ingredients.toList.map (·.relation), c.sections, c.diags.toList)) =
+    some ([⟨.definition [1] true, none⟩, ⟨.reference 0, some .ingredient⟩],
+          [⟨none, [.step ⟨[.ingredient 0, .ingredient 1], 1⟩]⟩], []) := by rfl
 
 end Cook
